@@ -219,8 +219,9 @@ class _Inliner:
         if self.only is None:
             return None       # closures are expanded only under the global new-helper policy
         lam = self._closures()[c['id']]
-        if not any(SX.is_node(SX.strip(a)) and SX.strip(a).get('k') == 'lambda' for a in e['args'][1:]):
-            return None
+        if not any(SX.is_node(SX.strip(a)) and (SX.strip(a).get('k') == 'lambda' or (SX.strip(a).get('k') == 'ref' and SX.strip(a).get('id') in self._closures()))
+                   for a in e['args'][1:]):
+            return None      # (a closure literal, or another local closure passed by name)
         key = 'closure:%s:%s' % (c['id'], self.f.key)
         if key in stack or len(lam.get('params', [])) != len(e['args']) - 1:
             return None
